@@ -30,32 +30,91 @@ struct Template {
     /// None: UriBuilder driven the way generated clients drive it; Some: a
     /// `#[conjure_client]` method whose request URI is captured
     producer: Option<fn(&[String]) -> Result<http::Uri, String>>,
+    /// Some: the query part is pushed through the optional / list / set helpers of
+    /// UriBuilder (the way generated clients push collection-typed query arguments);
+    /// `keys` then lists the pairs that must come out, in order
+    pushes: Option<Vec<Push>>,
+}
+
+#[derive(Clone, Copy, Debug, PartialEq)]
+enum Push {
+    Single,
+    OptNone,
+    OptSome,
+    List(usize),
+    Set(usize),
+}
+
+impl Push {
+    fn emitted(self) -> usize {
+        match self {
+            Push::Single | Push::OptSome => 1,
+            Push::OptNone => 0,
+            Push::List(n) | Push::Set(n) => n,
+        }
+    }
+    fn text(self) -> String {
+        match self {
+            Push::Single => "single".into(),
+            Push::OptNone => "optional:none".into(),
+            Push::OptSome => "optional:some".into(),
+            Push::List(n) => format!("list*{}", n),
+            Push::Set(n) => format!("set*{}", n),
+        }
+    }
+}
+
+const PUSH_KINDS: [Push; 8] = [Push::Single, Push::OptNone, Push::OptSome, Push::List(0), Push::List(1), Push::List(2), Push::Set(0), Push::Set(2)];
+const PUSH_KEYS: [&str; 3] = ["k0", "k1", "k2"];
+
+/// `/lit/{p}` followed by every sequence of 1..=3 collection-aware query pushes
+fn collection_templates() -> Vec<Template> {
+    let mut out = vec![];
+    for n in 1..=3usize {
+        vcommon::enumerate::for_each_word(PUSH_KINDS.len(), n, |w| {
+            if w.len() != n {
+                return;
+            }
+            let pushes: Vec<Push> = w.iter().map(|i| PUSH_KINDS[*i]).collect();
+            let mut keys = vec![];
+            for (i, p) in pushes.iter().enumerate() {
+                for _ in 0..p.emitted() {
+                    keys.push(PUSH_KEYS[i]);
+                }
+            }
+            let name = format!("/lit/{{p}}?{}", pushes.iter().enumerate().map(|(i, p)| format!("{}:{}", PUSH_KEYS[i], p.text())).collect::<Vec<_>>().join("&"));
+            out.push(Template { name: Box::leak(name.into_boxed_str()), segs: vec![Seg::Lit("lit"), Seg::Param], keys, producer: None, pushes: Some(pushes) });
+        });
+    }
+    out
 }
 
 fn templates() -> Vec<Template> {
     use Seg::*;
     vec![
-        Template { name: "/lit/{p}", segs: vec![Lit("lit"), Param], keys: vec![], producer: None },
-        Template { name: "/{p}/{p}", segs: vec![Param, Param], keys: vec![], producer: None },
-        Template { name: "/lit/{p}/mid/{p}/{p}", segs: vec![Lit("lit"), Param, Lit("mid"), Param, Param], keys: vec![], producer: None },
-        Template { name: "/lit?k0", segs: vec![Lit("lit")], keys: vec!["k0"], producer: None },
-        Template { name: "/lit/{p}?k0&k1", segs: vec![Lit("lit"), Param], keys: vec!["k0", "k1"], producer: None },
-        Template { name: "/a/b?list*3", segs: vec![Lit("a"), Lit("b")], keys: vec!["list", "list", "list"], producer: None },
-        Template { name: "/{p}?k0&list*2&k1", segs: vec![Param], keys: vec!["k0", "list", "list", "k1"], producer: None },
+        Template { name: "/lit/{p}", segs: vec![Lit("lit"), Param], keys: vec![], producer: None, pushes: None },
+        Template { name: "/{p}/{p}", segs: vec![Param, Param], keys: vec![], producer: None, pushes: None },
+        Template { name: "/lit/{p}/mid/{p}/{p}", segs: vec![Lit("lit"), Param, Lit("mid"), Param, Param], keys: vec![], producer: None, pushes: None },
+        Template { name: "/lit?k0", segs: vec![Lit("lit")], keys: vec!["k0"], producer: None, pushes: None },
+        Template { name: "/lit/{p}?k0&k1", segs: vec![Lit("lit"), Param], keys: vec!["k0", "k1"], producer: None, pushes: None },
+        Template { name: "/a/b?list*3", segs: vec![Lit("a"), Lit("b")], keys: vec!["list", "list", "list"], producer: None, pushes: None },
+        Template { name: "/{p}?k0&list*2&k1", segs: vec![Param], keys: vec!["k0", "list", "list", "k1"], producer: None, pushes: None },
         // macro-derived clients: literals and query keys with characters of every encode-set level
         Template {
             name: "macro:/w/a b/{p}/x%y/{r}/q?z/h#i/{s}/end&=+,;?k&=y&p q#r+s%t?u/v&plain",
             segs: vec![Lit("w"), Lit("a b"), Param, Lit("x%y"), Param, Lit("q?z"), Lit("h#i"), Param, Lit("end&=+,;")],
             keys: vec!["k&=y", "p q#r+s%t?u/v", "plain"],
             producer: Some(|v| capture(|c| WeirdApiClient::new(c).weird(&v[0], &v[1], &v[2], &v[3], &v[4], &v[5]))),
+            pushes: None,
         },
         Template {
             name: "macro:/m/{p}/é/{r}?list*2&k é&opt",
             segs: vec![Lit("m"), Param, Lit("\u{e9}"), Param],
             keys: vec!["list", "list", "k \u{e9}", "opt"],
             producer: Some(|v| capture(|c| WeirdApiClient::new(c).listy(&v[0], &v[1], &v[2..4], &v[4], Some(&v[5])))),
+            pushes: None,
         },
-        Template { name: "macro:/{p}", segs: vec![Param], keys: vec![], producer: Some(|v| capture(|c| WeirdApiClient::new(c).bare(&v[0]))) },
+        Template { name: "macro:/{p}", segs: vec![Param], keys: vec![], producer: Some(|v| capture(|c| WeirdApiClient::new(c).bare(&v[0]))), pushes: None },
     ]
 }
 
@@ -192,9 +251,27 @@ fn build(t: &Template, vals: &[String]) -> Result<http::Uri, String> {
         if !lit.is_empty() {
             b.push_literal(&lit);
         }
-        for k in &t.keys {
-            b.push_query_parameter(k, &vals[vi]);
-            vi += 1;
+        match &t.pushes {
+            None => {
+                for k in &t.keys {
+                    b.push_query_parameter(k, &vals[vi]);
+                    vi += 1;
+                }
+            }
+            Some(pushes) => {
+                for (i, p) in pushes.iter().enumerate() {
+                    let k = PUSH_KEYS[i];
+                    let mine: Vec<String> = vals[vi..vi + p.emitted()].to_vec();
+                    vi += p.emitted();
+                    match p {
+                        Push::Single => b.push_query_parameter(k, &mine[0]),
+                        Push::OptNone => b.push_optional_query_parameter::<String>(k, &None),
+                        Push::OptSome => b.push_optional_query_parameter(k, &Some(mine[0].clone())),
+                        Push::List(_) => b.push_list_query_parameter(k, &mine),
+                        Push::Set(_) => b.push_set_query_parameter(k, &mine.iter().cloned().collect::<std::collections::BTreeSet<String>>()),
+                    }
+                }
+            }
         }
         b.build()
     })
@@ -394,6 +471,8 @@ pub fn run(args: &Args) -> Report {
     let rt = ConjureRuntime::new();
     let ts = templates();
     if let Some(path) = &args.replay {
+        let mut ts = templates();
+        ts.extend(collection_templates());
         let v = vcommon::load_replay(path);
         let c = &v["case"];
         let name = c["template"].as_str().unwrap();
@@ -466,6 +545,55 @@ pub fn run(args: &Args) -> Report {
             jobs.push((ti, vec![a.clone(); n]));
         }
     }
+    // collection-aware query pushes (optional / list / set, empty and non-empty, in every order)
+    let first_col = ts.len();
+    let mut ts = ts;
+    let empties = [Push::OptNone, Push::List(0), Push::Set(0)];
+    for t in collection_templates() {
+        let p = t.pushes.as_ref().unwrap();
+        if thorough || p.len() <= 2 || (empties.contains(&p[0]) && empties.contains(&p[1])) {
+            ts.push(t);
+        }
+    }
+    for (ti, t) in ts.iter().enumerate().skip(first_col) {
+        let n = t.positions();
+        let defaults: Vec<String> = (0..n).map(|i| format!("d{}", i)).collect();
+        let mut push_vals = |mut vals: Vec<String>| {
+            // a set parameter emits its values in order, once each
+            let mut at = 1;
+            for p in t.pushes.as_ref().unwrap() {
+                if let Push::Set(k) = p {
+                    vals[at..at + k].sort();
+                    if vals[at..at + k].windows(2).any(|w| w[0] == w[1]) {
+                        return;
+                    }
+                }
+                at += p.emitted();
+            }
+            jobs.push((ti, vals));
+        };
+        push_vals(defaults.clone());
+        for pos in 0..n {
+            for v in &reduced {
+                let mut vals = defaults.clone();
+                vals[pos] = v.clone();
+                push_vals(vals);
+            }
+        }
+        for p1 in 0..n {
+            for p2 in (p1 + 1)..n {
+                for a in ["&k9=x", "%", "", "?"] {
+                    for b in ["=", "#", " ", "&"] {
+                        let mut vals = defaults.clone();
+                        vals[p1] = a.to_string();
+                        vals[p2] = b.to_string();
+                        push_vals(vals);
+                    }
+                }
+            }
+        }
+    }
+    let ts = ts;
     let part = jobs
         .par_iter()
         .fold(
@@ -502,12 +630,13 @@ pub fn run(args: &Args) -> Report {
     }
     report.sample("single", json!({"template": ts[2].name, "values": ["d", "a/b", "d"]}));
     report.sample("pair", json!({"template": ts[4].name, "values": ["%2F", "&k1=x", "#"]}));
-    report.bound("templates", json!(ts.iter().map(|t| t.name).collect::<Vec<_>>()));
+    report.bound("templates", json!(ts.iter().take(first_col).map(|t| t.name).collect::<Vec<_>>()));
+    report.bound("collection_push_templates", ts.len() - first_col);
     report.bound("values_per_position", one_position.len());
     report.bound("pair_alphabet", reduced.len());
     report.bound("uri_lengths", "65520..=65545 in 3 positions x {plain, escaped}");
     report.nontrivial = report.states;
-    report.rule = "states = (template, values): every single ASCII code point, UTF-8 length boundary, look-alike string and every pair over the reserved alphabet in every parameter position of 7 templates (others default), every pair of positions over a reduced alphabet, all positions at once, and URI lengths around the 65534 limit; each URI is tokenized by an independent RFC 3986 model and decoded by the real server functions".into();
+    report.rule = "states = (template, values): every single ASCII code point, UTF-8 length boundary, look-alike string and every pair over the reserved alphabet in every parameter position of 7 templates (others default), every pair of positions over a reduced alphabet, all positions at once, every sequence of up to three optional / list / set / single query pushes (empty and non-empty) after a path parameter over a reduced alphabet, and URI lengths around the 65534 limit; each URI is tokenized by an independent RFC 3986 model and decoded by the real server functions".into();
     report.assumptions.push("dot-segment normalisation by intermediaries is outside the repository; '.' and '..' are literal segments".into());
     report
 }
